@@ -42,7 +42,7 @@ type C11Case struct {
 	Extra  []C11Triple `json:"extra,omitempty"` // never written (unless equal to a write), read as well
 }
 
-var c11Atoms = []string{"a", "b", ".", "/", "_", "@", "P", "1", "8", "..", "_eng", "_nor", ".bin", ".txt", "\x00", "\xff", "alice", "s1", "state", "4", "0", "A"}
+var c11Atoms = []string{"a", "b", ".", "/", "_", "@", "P", "1", "8", "..", "_eng", "_nor", ".bin", ".txt", "\x00", "\xff", "alice", "s1", "state", "4", "0", "A", "tmp", "~", "-", "lock", "bak"}
 
 var genC11Str = rapid.Custom(func(t *rapid.T) string {
 	n := uniformN(t, 5, "natoms")
@@ -57,6 +57,11 @@ var genC11Triple = rapid.Custom(func(t *rapid.T) C11Triple {
 	tr := C11Triple{Typ: dbTypes[uniformN(t, len(dbTypes), "typ")]}
 	if chancePct(t, 60, "sessioned") {
 		tr.Typ = dbTypes[4+uniformN(t, 2, "styp")]
+	}
+	if chancePct(t, 10, "customtype") {
+		// an application's own data types: the free bits above USERDATA and unions with the
+		// session-scoped ones (everything above STATICLOAD carries the session)
+		tr.Typ = []uint8{64, 128, 192, 48, 96, 80, 144}[uniformN(t, 7, "ctyp")]
 	}
 	tr.Session = BS(genC11Str.Draw(t, "session"))
 	tr.Key = BS(genC11Str.Draw(t, "key"))
